@@ -65,6 +65,8 @@ type CliWorld struct {
 	relayClosed   bool
 	relayClosedAt int64
 	chanSeen      map[uint16]string
+	chanSeenAt    map[uint16]int64
+	lostReported  bool
 	peerChan      map[string]uint16
 	permDelivered map[string]int64
 	chanDelivered map[uint16]chanDel
@@ -124,6 +126,7 @@ type callRec struct {
 }
 
 type injRec struct {
+	Sure bool // the client must accept it: a Data indication, or ChannelData on a number whose ChannelBind the server has received and accepts
 	T    int64
 	Peer string
 	Data []byte
